@@ -651,6 +651,14 @@ def _abbreviation_alphabet_ok(F):
                 sinks.append(val == el and any(is_alnum_test(c, b, el) for c, b in conds))
             else:
                 sinks.append(False)
+        if e["name"] == "extend" and len(e["args"]) == 1 and "String" in (Hh.strip(e["recv"]).get("ty") or "") + (Hh.strip(e["recv"]).get("adj_ty") or ""):
+            # `text.extend(chars)`: the same sink as `collect`, into a String that exists already
+            src, val, conds = og.iter_view(_strip_take(W.NF.nf(e["args"][0], env)))
+            if isinstance(src, tuple) and src[0] == "call" and str(src[1]).endswith("chars"):
+                el = ("elem", src)
+                sinks.append(val == el and any(is_alnum_test(c, b, el) for c, b in conds))
+            else:
+                sinks.append(False)
         if e["name"] == "push" and "String" in (Hh.strip(e["recv"]).get("ty") or "") + (Hh.strip(e["recv"]).get("adj_ty") or ""):
             v = W.NF.nf(e["args"][0], env)
             if v[0] == "lit":
@@ -672,7 +680,7 @@ def _abbreviation_alphabet_ok(F):
 
 def _strip_take(nf):
     """`iter.take(n)` / `.skip(n)` only shorten the sequence: the characters that remain still passed what comes before"""
-    while isinstance(nf, tuple) and nf[0] == "call" and isinstance(nf[1], str) and nf[1].rsplit("::", 1)[-1] in ("take", "skip", "rev", "fuse") and nf[2]:
+    while isinstance(nf, tuple) and nf[0] == "call" and isinstance(nf[1], str) and nf[1].rsplit("::", 1)[-1] in ("take", "skip", "rev", "fuse", "peekable", "by_ref") and nf[2]:
         nf = nf[2][0]
     return nf
 
